@@ -25,7 +25,9 @@ import time
 VERIF = os.path.dirname(os.path.dirname(os.path.abspath(__file__)))
 REPO = os.environ.get("VERIF_REPO", "/repo")
 # evidence and replay files of a seedcheck run (VERIF_REPO set) must not overwrite those of the registered checks
-OUTROOT = "/verif" if REPO == "/repo" else "/tmp/verif-seed-out"
+# Evidence and replays go to the tree the check runs from (a `vp run` snapshot writes into the snapshot, not into /verif);
+# VERIF_NO_EVIDENCE=1 (multi-seed and regression runs) sends them to a scratch directory instead.
+OUTROOT = VERIF if (REPO == "/repo" and not os.environ.get("VERIF_NO_EVIDENCE")) else "/tmp/verif-seed-out"
 SPEC = os.path.join(VERIF, "spec")
 JAR = "/opt/veriftools/tla/tla2tools.jar:/opt/veriftools/tla/CommunityModules-deps.jar"
 NCPU = os.cpu_count() or 4
